@@ -10,7 +10,8 @@ Executable model, core Lean only.  Two halves:
   (= M6 `Layout.checkAlignment`, whose result supplies the inserted padding fields), the `get_ctype_cls`
   key lookups of the final size assert, the 65535 limit.  The input is the closure *flattened in parse
   order* (imports first, sections in the parser's fixed order); identifiers are interned numbers.
-  Name/id conflict detection (C12) and the hash text (C13) are NOT modelled: ids and hashes are data.
+  Name conflict detection (C12) and the hash text (C13) are NOT modelled (hashes are data); of the id checks only
+  `validate_msg_id` is (range and duplicate message / signal / reserved ids, across files, in either order).
 * `emit` — `PyDefCompiler / CDefCompiler / JSDefCompiler / MatlabDefCompiler .generate` as lists of abstract
   statements in output order, each with the back end's own table lookups and quirks
   (Python prints native `T[1]` as a scalar and resolves aliases in place; C omits everything that came from
@@ -56,6 +57,8 @@ structure Tables where
   /-- the interned names `char` (padding type) and `RTMA_MSG_HEADER` (MATLAB trailer) -/
   charName : Name
   hdrName : Name
+  /-- `MAX_MESSAGE_TYPES` (imported by the parser from `core_defs.py`): the largest message id `validate_msg_id` accepts -/
+  maxMsgId : Nat := 10000
 deriving Repr, Inhabited
 
 def assoc {β} (l : List (Name × β)) (k : Name) : Option β := (l.find? (fun p => p.1 == k)).map (·.2)
@@ -241,6 +244,11 @@ def specFields (T : Tables) (R : Reg) : FieldsSpec → Except Err (List FieldR)
       | some d => .ok d.fields
       | none => .error .syntax
 
+/-- `validate_msg_id`: the id is in `[0, MAX_MESSAGE_TYPES]` and no message, signal or reserved id parsed so far (in
+this or any other file of the closure, in either order) has the same value -/
+def idOk (T : Tables) (R : Reg) (id : Int) : Bool :=
+  decide (0 ≤ id) && decide (id ≤ (T.maxMsgId : Int)) && !(R.msgIds.any (fun m => m.2.1 == id))
+
 def elabItem (T : Tables) (autoPad : Bool) (core : Bool) (R : Reg) : Item → Except Err Reg
   | .const n v => .ok { R with consts := R.consts ++ [(n, v, core)] }
   | .strConst n s => .ok { R with strs := R.strs ++ [(n, s, core)] }
@@ -255,7 +263,8 @@ def elabItem (T : Tables) (autoPad : Bool) (core : Bool) (R : Reg) : Item → Ex
       | .ok (fs', al, sz) =>
         .ok { R with structs := R.structs ++ [{ name := n, id := none, hash := h, fields := fs', align := al, size := sz, core }] }
   | .message n id h f =>
-    match specFields T R f with
+    if !idOk T R id then .error .syntax       -- `validate_msg_id` runs before `add_fields`
+    else match specFields T R f with
     | .error e => .error e
     | .ok fs => match layoutDef T R autoPad fs with
       | .error e => .error e
@@ -263,6 +272,7 @@ def elabItem (T : Tables) (autoPad : Bool) (core : Bool) (R : Reg) : Item → Ex
         .ok { R with msgIds := R.msgIds ++ [(n, id, core)],
                      msgs := R.msgs ++ [{ name := n, id := some id, hash := h, fields := fs', align := al, size := sz, core }] }
   | .signal n id h =>
+    if !idOk T R id then .error .syntax else
     .ok { R with msgIds := R.msgIds ++ [(n, id, core)],
                  msgs := R.msgs ++ [{ name := n, id := some id, hash := h, fields := [], align := 8, size := 0, core }] }
 
